@@ -1,6 +1,9 @@
 package jsonpath
 
-import "reflect"
+import (
+	"encoding/json"
+	"reflect"
+)
 
 type syntaxCompareDeepEQ struct {
 	*syntaxBasicAnyValueTypeValidator
@@ -12,11 +15,61 @@ func (c *syntaxCompareDeepEQ) comparator(left []interface{}, right interface{}) 
 		if left[leftIndex] == emptyEntity {
 			continue
 		}
-		if reflect.DeepEqual(left[leftIndex], right) {
+		if deepEqualByValue(left[leftIndex], right) {
 			hasValue = true
 		} else {
 			left[leftIndex] = emptyEntity
 		}
 	}
 	return hasValue
+}
+
+// deepEqualByValue is reflect.DeepEqual for decoded JSON values, except that numbers
+// (float64 and json.Number, at any depth) are compared by their numeric value, as
+// every other comparison does: a document decoded with UseNumber selects the same
+// members as the same document decoded to float64.
+func deepEqualByValue(left, right interface{}) bool {
+	switch typedLeft := left.(type) {
+	case json.Number:
+		if leftNumber, err := typedLeft.Float64(); err == nil {
+			return equalsNumber(leftNumber, right)
+		}
+	case float64:
+		return equalsNumber(typedLeft, right)
+	case map[string]interface{}:
+		typedRight, ok := right.(map[string]interface{})
+		if !ok || len(typedLeft) != len(typedRight) {
+			return false
+		}
+		for key, leftValue := range typedLeft {
+			rightValue, ok := typedRight[key]
+			if !ok || !deepEqualByValue(leftValue, rightValue) {
+				return false
+			}
+		}
+		return true
+	case []interface{}:
+		typedRight, ok := right.([]interface{})
+		if !ok || len(typedLeft) != len(typedRight) {
+			return false
+		}
+		for index := range typedLeft {
+			if !deepEqualByValue(typedLeft[index], typedRight[index]) {
+				return false
+			}
+		}
+		return true
+	}
+	return reflect.DeepEqual(left, right)
+}
+
+func equalsNumber(left float64, right interface{}) bool {
+	switch typedRight := right.(type) {
+	case float64:
+		return left == typedRight
+	case json.Number:
+		rightNumber, err := typedRight.Float64()
+		return err == nil && left == rightNumber
+	}
+	return false
 }
